@@ -37,6 +37,16 @@ Section SpecH.
     let '(ok1, ot1) := step1 H t ot in
     stops x = false /\ is_ok x = ok1 /\ Abs H s' ot1 /\ (ok1 = false -> s' = s).
 
+  (* every batch_insert of the history is one the plain map rejects at that point (a key or hash already
+     present or twice in the batch): the accepted batch is the one operation whose L2 -> L1 lemma is open *)
+  Fixpoint rejected_batches (ops : list op) (s : mblob) (m : kvmap) : Prop :=
+    match ops with
+    | [] => True
+    | o :: r =>
+        (match o with OBatch items => m_batch items m = None | _ => True end) /\
+        rejected_batches r (snd (step2 H o s)) (snd (step0 (op_to_top s o) m))
+    end.
+
   (* before every operation of the history the blob has room *)
   Fixpoint rooms (ops : list op) (s : mblob) : Prop :=
     match ops with [] => True | o :: r => room s /\ rooms r (snd (step2 H o s)) end.
